@@ -170,14 +170,14 @@ Theorem C04_repeat_in_is_a_light_loop : forall rt mt srcs x w, forallb (plain_sr
 Proof. exact lin_form. Qed.
 Print Assumptions C04_repeat_in_is_a_light_loop.
 
-(* ... and every loop of that shape, its body made of the covered statements (it may break -- the names not yet visited go with the loop
-   frame -- and call routines, but not return), run on the machine model, binds x to each name exactly once in name order and ends where
+(* ... and every loop of that shape, its body made of the covered statements (it may break or, inside a routine, return: the names not yet
+   visited go with the loop frame, END_LOOP and RETURN cut the stack back to where the loop was opened), run on the machine model, binds x to each name exactly once in name order and ends where
    the reference semantics says with the same events -- for every population, the empty one and one with an empty label included. *)
 Theorem C04_light_loop_compiled_runs_as_its_source_says :
-  forall rt mt, bodies_ok rt mt -> forall l x ov pre body, light_form rt mt l x ov pre -> SimpleB rt mt true false body ->
-  forall after im ss s sig ss' fuel, routines_loaded rt mt im -> sim ss s ->
+  forall rt mt, bodies_ok rt mt -> forall (inr : bool) l x ov pre body, light_form rt mt l x ov pre -> SimpleB rt mt true inr body ->
+  forall after im ss s sig ss' fuel, routines_loaded rt mt im -> in_ret_ok inr (m_frames s) -> in_depth_ok inr s -> sim ss s ->
   code_at im (m_pc s) (c_stmt rt mt false after (SRepeat l body)) ->
   Sem.exec rt mt fuel false ss (SRepeat l body) = ROk sig ss' ->
-  outcome false after im ss s sig ss' (c_stmt rt mt false after (SRepeat l body)).
+  outcome inr after im ss s sig ss' (c_stmt rt mt false after (SRepeat l body)).
 Proof. exact light_loop_simulation. Qed.
 Print Assumptions C04_light_loop_compiled_runs_as_its_source_says.
